@@ -485,6 +485,8 @@ class Gen:
             e = self.e_of(ty, d)
             if ty == STR and e[0] == "field" and not self.on("own.str_field", 1.0):
                 continue  # `U(tag=v.tag)` moves the field out of v (known finding C02-str-ownership)
+            if ty == STR and e[0] == "idx" and e[1] == "list" and not self.on("own.str_list_elem", 1.0):
+                continue  # `U(tag=xs[0])`: &str where String is expected (known finding C02-str-collections-and-class-from-json)
             if not (ty == STR and e[0] == "var"):
                 return e
         return ("str", self.r.choice(WORDS)) if ty == STR else e
@@ -543,7 +545,13 @@ class Gen:
                     dropped = variants.pop()
                 qual = not self.on("match.unqualified_pattern", 0.4)
                 for vname, vtys in variants:
-                    binds = [self.fresh("p") for _ in vtys]
+                    binds = []
+                    for _ in vtys:
+                        b = self.fresh("p")
+                        while b in binds:  # a dead name may be reused, but not twice in one pattern
+                            self.nvar += 1
+                            b = "p%d" % self.nvar
+                        binds.append(b)
                     pat = ("ctor", (ename + "." + vname) if qual else vname, [("bind", b) for b in binds])
                     self.scopes.append({b: (t, False) for b, t in zip(binds, vtys)})
                     body = [("print", ("str", vname))]
